@@ -237,7 +237,7 @@ func NewOperationParams(params specification.OperationParameters, components Com
 	for _, p := range params.Query.List {
 		param, ims, err := NewQueryParameter(p.V, components, cfg)
 		if err != nil {
-			return zero, nil, fmt.Errorf("new query parameter: %w", err)
+			return zero, nil, fmt.Errorf("new query parameter %q: %w", p.Name, err)
 		}
 		imports = append(imports, ims...)
 		op.Query.Add(p.Name, param)
@@ -246,7 +246,7 @@ func NewOperationParams(params specification.OperationParameters, components Com
 	for _, p := range params.Headers.List {
 		param, ims, err := NewHeaderParameter(p.V, components, cfg)
 		if err != nil {
-			return zero, nil, fmt.Errorf("new header parameter: %w", err)
+			return zero, nil, fmt.Errorf("new header parameter %q: %w", p.Name, err)
 		}
 		op.Headers.Add(p.Name, param)
 		imports = append(imports, ims...)
@@ -255,7 +255,7 @@ func NewOperationParams(params specification.OperationParameters, components Com
 	for _, p := range params.Path.List {
 		param, ims, err := NewPathParameter(p.V, components, cfg)
 		if err != nil {
-			return zero, nil, fmt.Errorf("new path parameter: %w", err)
+			return zero, nil, fmt.Errorf("new path parameter %q: %w", p.Name, err)
 		}
 		op.Path.Add(p.Name, param)
 		imports = append(imports, ims...)
